@@ -28,18 +28,18 @@ package cty
 //
 //@ func cty.ListVal
 //@   tags C06
-//@   requires (> (Slice.len vals) 0)
 //@   requires (vals_typed vals (Slice.len vals))
-//@   requires (vals_consistent vals (Slice.len vals))
+//@   panics[C06,C02] (or (= (Slice.len vals) 0) (not (vals_consistent vals (Slice.len vals))))
 //@   let n (Slice.len vals)
 //@   ensures[C06] shape: (and (is_list_ty (vty result)) (wf_ty (vty result)) (plain result) (is_seq_payload result) (= (Slice.len (pl_seq result)) n))
 //@   ensures[C06] elemty: (or (and (is_dyn_ty (elem_ty (vty result))) (vals_all_dyn vals n)) (and (not (is_dyn_ty (elem_ty (vty result)))) (vals_some_ty vals n (elem_ty (vty result)))))
 //@   loop 1 invariant (or (and (is_dyn_ty elementType) (vals_all_dyn vals $i)) (and (not (is_dyn_ty elementType)) (vals_some_ty vals $i elementType)))
+//@   loop 1 invariant (forall ((j Int)) (! (=> (and (trig j) (<= 0 j) (< j $i) (not (is_dyn_ty (vty (vals_rel vals j))))) (ty_eq elementType (vty (vals_rel vals j)))) :pattern ((trig j))))
 //
 //@ func cty.CanListVal
 //@   tags C06
 //@   requires (vals_typed vals (Slice.len vals))
-//@   ensures[C06] sound: (=> result (vals_consistent vals (Slice.len vals)))
+//@   ensures[C06] exact: (= result (vals_consistent vals (Slice.len vals)))
 //@   loop 1 invariant (or (and (is_dyn_ty elementType) (vals_all_dyn vals $i)) (and (not (is_dyn_ty elementType)) (vals_some_ty vals $i elementType)))
 //@   loop 1 invariant (forall ((j Int)) (! (=> (and (trig j) (<= 0 j) (< j $i) (not (is_dyn_ty (vty (vals_rel vals j))))) (ty_eq elementType (vty (vals_rel vals j)))) :pattern ((trig j))))
 //
@@ -78,12 +78,12 @@ package cty
 //
 //@ func cty.MapVal
 //@   tags C06
-//@   requires nonempty: (> (MapC<String~cty.Value>.card (vmap vals)) 0)
 //@   requires typed: (vmap_typed vals)
-//@   requires consistent: (vmap_consistent vals)
+//@   panics[C06,C02] (or (= vals 0) (= (MapC<String~cty.Value>.card (vmap vals)) 0) (not (vmap_consistent vals)))
 //@   ensures[C06] shape: (and (is_map_ty (vty result)) (wf_ty (vty result)) (plain result) (is_map_payload result))
 //@   ensures[C06] elemty: (or (and (is_dyn_ty (elem_ty (vty result))) (vmap_all_dyn vals)) (and (not (is_dyn_ty (elem_ty (vty result)))) (vmap_some_ty vals (elem_ty (vty result)))))
 //@   loop 1 invariant (or (and (is_dyn_ty elementType) (forall ((k String)) (! (=> (select $visited k) (is_dyn_ty (vty (vmap_at vals k)))) :pattern ((select $visited k))))) (and (not (is_dyn_ty elementType)) (exists ((k String)) (! (and (select $visited k) (= elementType (vty (vmap_at vals k)))) :pattern ((select $visited k))))))
+//@   loop 1 invariant (forall ((k String)) (! (=> (and (select $visited k) (not (is_dyn_ty (vty (vmap_at vals k))))) (ty_eq elementType (vty (vmap_at vals k)))) :pattern ((select $visited k))))
 //
 //@ func cty.ObjectVal
 //@   tags C06
@@ -116,7 +116,7 @@ package cty
 //@ func cty.CanMapVal
 //@   tags C06
 //@   requires (vmap_typed vals)
-//@   ensures[C06] sound: (=> result (vmap_consistent vals))
+//@   ensures[C06] exact: (= result (vmap_consistent vals))
 //@   loop 1 invariant (or (and (is_dyn_ty elementType) (forall ((k String)) (! (=> (select $visited k) (is_dyn_ty (vty (vmap_at vals k)))) :pattern ((select $visited k))))) (and (not (is_dyn_ty elementType)) (exists ((k String)) (! (and (select $visited k) (= elementType (vty (vmap_at vals k)))) :pattern ((select $visited k))))))
 //@   loop 1 invariant (forall ((k String)) (! (=> (and (select $visited k) (not (is_dyn_ty (vty (vmap_at vals k))))) (ty_eq elementType (vty (vmap_at vals k)))) :pattern ((select $visited k))))
 //
